@@ -188,7 +188,8 @@ CHECKS = {
                 "cannot cascade; plus as many scripted 'lifecycle' histories that drive trackers to their 100th confirmation and subscriptions past their expiry + grace "
                 "one block per poll, of which only the crash points of that final window are enumerated): EVERY crash point hit inside an operation (before/after each durable write, before/after each explicit commit, before every node "
                 "RPC and every block-source call) plus the durable-write points and a sample of the download points of every bootstrap; and for every multi-block "
-                "poll a failed download of its 1st..4th block followed by a restart. Each fault = one full re-execution of H: the observer unwinds at the k-th point, "
+                "poll a failed download of its 1st..4th block followed by a restart; and for a sample of the crash points inside a poll that is followed by mining and another "
+                "poll, the same crash with those blocks mined while the tower is down (only if every penalty in them had reached the node's mempool by then). Each fault = one full re-execution of H: the observer unwinds at the k-th point, "
                 "all tower objects are dropped (sqlite rolls back open transactions), the bootstrap of main.rs runs again on the same file, the request in flight is "
                 "re-issued (a registration only if it did not take effect), H continues. Oracle: restart succeeds with the same tower id; from the crash onwards the "
                 "database after EVERY operation equals the uninterrupted run's (users, appointments byte for byte, trackers with their transactions and confirmation, "
